@@ -232,4 +232,74 @@ def replay_paths(a):
     return {"reproduced": bool(out), "mismatches": out[:5], "document": text, "rules_file": rules}
 
 
-SITES = {"C10": [path_construction, extend_usize_wiring]}
+def data_file_text_wiring(a):
+    """build_data_file: the text handed to the loader is the file's own text (positions are positions in the file), and the
+    value stored is what the loader produced from it"""
+    ex = a.exec(r"(?:commands::validate::)?build_data_file",
+                {"trim": lambda ex, av: ex.opq(), "is_empty": lambda ex, av: ex.havoc("bool"), "read_from": m_result_opq, "try_from": m_result_opq,
+                 "deref": mirexec.m_identity, "as_str": mirexec.m_identity, "min": lambda ex, av: ex.havoc("usize"),
+                 "is_char_boundary": lambda ex, av: ("bool", "true"), "len": lambda ex, av: ex.havoc("usize"), "index": lambda ex, av: ex.opq(),
+                 "to_string": lambda ex, av: ex.opq()},
+                log=("trim",), unroll=1, max_paths=4000)
+    a.fns.append("commands::validate::build_data_file (text -> loader wiring)")
+    content, name = ex.arg_env["_1"], ex.arg_env["_2"]
+    bad, nload = [], 0
+    for p in ex.paths:
+        r = p.ret
+        if p.outcome != "return" or not r or r[0] != "enum" or r[1] != "Result":
+            continue                                  # panics of the preview slice are decided by the Kani K14 harnesses
+        rf = calls(p, "read_from")
+        tf = calls(p, "try_from")
+        probs = []
+        for e in rf:
+            nload += 1
+            if not same(e[2][0], content):
+                probs.append("the loader is given something other than the file's full text")
+        okv = r[3].get("Ok")
+        if okv is not None and okv[0] == "struct":
+            if not (rf and tf and rf[0][3][0] == "enum" and same(tf[0][2][0], rf[0][3][3]["Ok"]) and tf[0][3][0] == "enum"
+                    and same(okv[2].get("path_value"), tf[0][3][3]["Ok"])):
+                probs.append("the stored value is not the conversion of what the loader returned")
+            if not (same(okv[2].get("content"), content) and same(okv[2].get("name"), name)):
+                probs.append("the stored text / name are not the file's own")
+        bad.append(pc_term(p.pc) if probs else "false")
+    c = a.discharge("build_data_file/loader-gets-the-file-text", ex, bad,
+                    f"build_data_file ({nload} loader calls over all paths): the loader is called on the file's full text - not on a trimmed or "
+                    "otherwise shifted copy, so that line / column marks are positions in the file - and the DataFile stores the conversion of "
+                    "exactly the loader's result together with the file's own text and name", witness=False)
+    if c:
+        c["replay"] = replay_leading_whitespace(a)
+        c["reproduced"] = c["replay"].get("reproduced", False)
+        a.candidates.append(c)
+
+
+def replay_leading_whitespace(a):
+    """the same document with and without leading blank lines / spaces: every reported [L,C] must point at the text of the
+    value in the FILE"""
+    import json, re as _re
+    exe = a.cli()
+    if not exe:
+        return {"reproduced": False, "note": "native build failed"}
+    body = '{"a":\n  7,\n "b": {"c":\n   8}}\n'
+    out, tried = [], []
+    for label, prefix in (("as is", ""), ("two leading blank lines", "\n\n"), ("leading spaces", "   "), ("blank line + spaces", "\n  ")):
+        text = prefix + body
+        rc, rep, err = a.run_structured(exe, "rule r {\n  a == 1\n  b.c == 2\n}\n", [text])
+        if not (rep and isinstance(rep, list) and rep):
+            tried.append({"case": label, "problem": "no report", "exit": rc})
+            continue
+        lines = text.split("\n")
+        marks = _re.findall(r"Path=(/[\w/]+)\[L:(\d+),C:(\d+)\] Value=(\d+)", json.dumps(rep))
+        okc = bool(marks)
+        for path, l, c_, val in marks:
+            l, c_ = int(l), int(c_)
+            at = lines[l][c_:] if l < len(lines) else ""
+            if not at.startswith(val):
+                okc = False
+                out.append({"case": label, "path": path, "reported": [l, c_], "value": val, "text_there": at[:12]})
+        tried.append({"case": label, "ok": okc, "marks": len(marks)})
+    return {"reproduced": bool(out), "mismatches": out[:4], "tried": tried,
+            "note": "; ".join(t["problem"] for t in tried if "problem" in t) or None}
+
+
+SITES = {"C10": [path_construction, extend_usize_wiring, data_file_text_wiring]}
